@@ -28,6 +28,7 @@ ObsProblems(o, s, what) ==
      \cup Msg(<<o.minbs, o.maxbs, o.minfs, o.maxfs, o.total, o.nframes>> = <<s.minbs, s.maxbs, s.minfs, s.maxfs, s.total, Len(s.frames)>>,
               "MODEL: " \o what \o ": accessors show " \o ToString(<<o.minbs, o.maxbs, o.minfs, o.maxfs, o.total, o.nframes>>)
               \o ", the model has " \o ToString(<<s.minbs, s.maxbs, s.minfs, s.maxfs, s.total, Len(s.frames)>>))
+     \cup Msg(o.verify = SB!VerifyOk(s), "MODEL: " \o what \o ": Stream::verify says " \o ToString(o.verify) \o ", the model says " \o ToString(SB!VerifyOk(s)))
      \cup Msg(o.count_rem = 0 /\ o.count = o.wlen, "C08: " \o what \o ": stream count_bits is " \o ToString(o.count) \o " bytes + " \o ToString(o.count_rem)
               \o " bits but " \o ToString(o.wlen) \o " bytes are written")
      \cup Msg(o.wlen = w.bytes, "MODEL: " \o what \o ": " \o ToString(o.wlen) \o " bytes written, the model expects " \o ToString(w.bytes))
@@ -44,7 +45,8 @@ ObsProblems(o, s, what) ==
                        \o ") differs from the model (" \o ToString(w.types) \o ", " \o ToString(w.firstFrameAt) \o ")"))
 
 Apply(s, e) ==
-  CASE e.op = "frame" -> SB!AddFrame(s, e.x, e.y)
+  CASE e.op = "frame" -> SB!AddFrame(s, e.x, e.y, FALSE, e.b)
+    [] e.op = "vframe" -> SB!AddFrame(s, e.x, e.y, TRUE, e.b)
     [] e.op = "meta"  -> SB!AddMeta(s, e.x, e.y)
     [] e.op = "bs"    -> SB!SetBlockSizes(s, e.a, e.b)
     [] e.op = "fs"    -> SB!SetFrameSizes(s, e.a, e.b)
